@@ -17,7 +17,7 @@ import random
 
 from cerberus import Validator, SchemaError
 
-from .. import codec, real, cases, ports, schemas
+from .. import codec, real, cases, ports, schemas, families
 from ..lean import Driver
 
 
@@ -183,7 +183,8 @@ def one(ctx, drv, i, prof, case, n_corrupt):
         return
     if i % 3 == 0:
         oracle_registries(ctx, case, random.Random(ctx.seed * 59 + i))
-    variants = [('valid', None, good)] + schemas.corruptions(rng, good, n_corrupt)
+    variants = [('valid', None, good)] + schemas.corruptions(
+        rng, good, n_corrupt, extra_bad=families.VV_BAD_CONSTRAINTS if cls is families.VValidator else None)
     base = {'zz0': {'type': 'integer'}}
     ct = schemas.cls_tables(cls)
     for kind, path, sch in variants:
